@@ -13,7 +13,7 @@ from .reference import Reference, declared_edges, reachable
 from .sim import BarrierScheduler, FifoScheduler, ScriptedScheduler, make_scheduler
 
 # construct classes currently claimed (extended as defects are repaired); see DESIGN 4.2 / 7
-CLASSES_ALL = ['plain', 'rec', 'rec_nested', 'switch', 'switch_unk', 'switch_shared', 'oneof', 'oneof_nested', 'oneof_shared', 'mix_main', 'mix_shared', 'switch_oneof', 'hub', 'nest3', 'corpus']
+CLASSES_ALL = ['plain', 'rec', 'rec_nested', 'oneof_rec', 'switch', 'switch_unk', 'switch_shared', 'oneof', 'oneof_nested', 'oneof_shared', 'mix_main', 'mix_shared', 'switch_oneof', 'hub', 'nest3', 'corpus']
 
 
 def h64(*parts) -> int:
@@ -480,7 +480,7 @@ class C10(Prop):
 
 class C11(Prop):
     id = 'C11'
-    classes = ['rec', 'rec_nested']
+    classes = ['rec', 'rec_nested', 'oneof_rec']
     rule = ('one recurrent subgraph over a plain DAG, 0..max+1 requested iterations, default on/off, retries and '
             'failures inside the path; oracle: per-iteration invocation multiset (exact path set re-executed, start '
             'node gets additional_data=data, <= max re-iterations), consumers of the destination only see the final '
@@ -544,7 +544,7 @@ class C14(Prop):
 
 class C19(Prop):
     id = 'C19'
-    classes = [c for c in CLASSES_ALL if not c.startswith('rec') and c != 'corpus']   # known finding K01
+    classes = [c for c in CLASSES_ALL if 'rec' not in c and c != 'corpus']   # known finding K01
     excluded_note = 'class rec (programs with a RecurrentSubGraph mark): known finding K01'
     rule = ('recording (and, in half of the cases, write-once enforcing) artifact store on programs with shared '
             'nodes; oracle: on successful reference outcomes each executed node is saved exactly once with its final '
